@@ -54,7 +54,7 @@ impl GenConfig {
             expose: false,
             max_decls: 5,
             risky: false,
-            list_variables: false,
+            list_variables: true,
             refetch_fields: false,
             ref_weight: 0,
         }
@@ -78,7 +78,7 @@ impl GenConfig {
             expose: true,
             max_decls: 7,
             risky: false,
-            list_variables: false,
+            list_variables: true,
             refetch_fields: false,
             ref_weight: 0,
         }
@@ -191,6 +191,8 @@ fn arg_pool(schema: &Schema, cfg: &GenConfig) -> Vec<ArgDef> {
     ];
     if cfg.list_variables {
         v.push(ArgDef { name: "ids".into(), ty: TypeRef::list(TypeRef::named("ID", true), false), default: None });
+        v.push(ArgDef { name: "names".into(), ty: TypeRef::list(TypeRef::named("String", false), true), default: None });
+        v.push(ArgDef { name: "tags".into(), ty: TypeRef::list(TypeRef::named("String", true), true), default: None });
     }
     if schema.get("Filter").is_some() {
         v.push(ArgDef { name: "filter".into(), ty: TypeRef::named("Filter", false), default: None });
@@ -417,11 +419,11 @@ fn base_var_name(arg_name: &str) -> String {
 }
 
 fn type_compatible(var: &TypeRef, target: &TypeRef) -> bool {
-    // mirror of what the compiler documents: a non-null variable may flow into a nullable position of
-    // the same type; lists must match exactly below the outermost nullability.
+    // the GraphQL rule: a non-null type may flow into the nullable position of the same type, at
+    // every list level (covariant item nullability)
     match (var, target) {
         (TypeRef::Named { name: a, non_null: an }, TypeRef::Named { name: b, non_null: bn }) => a == b && (*an || !*bn),
-        (TypeRef::List { inner: a, non_null: an }, TypeRef::List { inner: b, non_null: bn }) => a == b && (*an || !*bn),
+        (TypeRef::List { inner: a, non_null: an }, TypeRef::List { inner: b, non_null: bn }) => (*an || !*bn) && type_compatible(a, b),
         _ => false,
     }
 }
@@ -491,7 +493,13 @@ fn gen_var(c: &mut Ctx, ty: &TypeRef, dc: &mut DeclCtx, hint: &str) -> Val {
         let i = compatible[c.t.choose(compatible.len())];
         return Val::Var(dc.vars[i].name.clone());
     }
-    let var_ty = if !ty.is_non_null() && c.t.chance(1, 3) { ty.with_non_null(true) } else { ty.clone() };
+    let mut var_ty = if !ty.is_non_null() && c.t.chance(1, 3) { ty.with_non_null(true) } else { ty.clone() };
+    if let TypeRef::List { inner, non_null } = &var_ty {
+        // a list of non-null items may flow into a list of nullable items
+        if !inner.is_non_null() && c.t.chance(1, 3) {
+            var_ty = TypeRef::List { inner: Box::new(inner.with_non_null(true)), non_null: *non_null };
+        }
+    }
     let mut name = base_var_name(hint);
     let mut k = 1;
     while dc.vars.iter().any(|v| v.name == name) {
@@ -561,7 +569,7 @@ fn gen_field_args(c: &mut Ctx, schema: &Schema, defs: &[ArgDef], dc: &mut DeclCt
 /// May a value generated for a parameter of type `from` be passed to one of type `to`? (same named
 /// type; the target must not be stricter about null)
 fn type_compatible_value(from: &TypeRef, to: &TypeRef) -> bool {
-    from.inner_name() == to.inner_name() && from.is_list() == to.is_list() && (from.is_non_null() || !to.is_non_null())
+    type_compatible(from, to)
 }
 
 #[derive(Clone)]
